@@ -119,11 +119,17 @@ def run(chk):
                                 out |= deps(x.id, seen)
             return out
         xs, ys = store[0].value.elts[0], store[0].value.elts[1]
-        dx = deps(xs.id) | {xs.id} if isinstance(xs, ast.Name) else set()
-        dy = deps(ys.id) | {ys.id} if isinstance(ys, ast.Name) else set()
+
+        def edeps(e):
+            out = set()
+            for x in ast.walk(e):
+                if isinstance(x, ast.Name):
+                    out |= {x.id} | deps(x.id)
+            return out
+        dx, dy = edeps(xs), edeps(ys)
         okd = names[0] in dx and names[2] in dx and names[1] not in dx - {names[1]} | set() and names[1] in dy and names[2] in dy
         okd = names[0] in dx and names[2] in dx and names[1] in dy and names[2] in dy and names[0] not in (dy - {names[0]}) and names[1] not in (dx - {names[1]}) or \
-            (xs.id == names[0] and ys.id == names[1] and names[2] in dx and names[2] in dy)
+            (isinstance(xs, ast.Name) and isinstance(ys, ast.Name) and xs.id == names[0] and ys.id == names[1] and names[2] in dx and names[2] in dy)
         chk.ob("R19.2", "scale(): new X depends on (X, Z), new Y on (Y, Z)", bool(okd), loc=f.qname, key="C19|R19.2|scale-deps", detail="scale(): dependency sets X' <- %s, Y' <- %s" % (sorted(dx), sorted(dy)))
     # _maybe_precompute guard
     f = p.func("ellipticcurve:PointJacobi._maybe_precompute")
